@@ -3176,10 +3176,10 @@ def _class_constraints(ctx: RuleCtx, mod: Module, info: L.FnInfo, n: Node, var: 
     return out
 
 
-def r12(ctx: RuleCtx) -> None:
+def _name_producers(ctx: RuleCtx) -> T.Dict[str, T.List[T.Tuple[str, str]]]:
+    """{F: [(P, param)]}: the backend function P(param) builds a statement whose output is self.F(param) (shared by R12 and R15)."""
     repo = ctx.repo
     mod = repo.module(NB)
-    bm = repo.module(BUILD)
     infos = _infos(ctx)
     funcs = _backend_funcs(mod)
 
@@ -3204,6 +3204,17 @@ def r12(ctx: RuleCtx) -> None:
             if isinstance(oi, ast.Call) and (call_name(oi) or '').startswith('self.') and (call_name(oi) or '').count('.') == 1 and len(oi.args) == 1 and not oi.keywords \
                     and isinstance(oi.args[0], ast.Name) and oi.args[0].id in ps and not info.defs().get(oi.args[0].id) and is_name_fn(call_name(oi)[5:]):  # type: ignore[index]
                 prod.setdefault(call_name(oi)[5:], []).append((q, oi.args[0].id))  # type: ignore[index]
+    return prod
+
+
+def r12(ctx: RuleCtx) -> None:
+    repo = ctx.repo
+    mod = repo.module(NB)
+    bm = repo.module(BUILD)
+    infos = _infos(ctx)
+    funcs = _backend_funcs(mod)
+
+    prod = _name_producers(ctx)
     nchk = 0
     domain = [(bm, c) for q_, c in bm.classes().items() if '.' not in q_]
 
@@ -3713,6 +3724,224 @@ def _present_forces(test: ast.AST) -> T.Optional[T.Tuple[bool, ast.Compare]]:
     return rec(test)
 
 
+# ----------------------------------------------------------------------------
+# R15  the name a target class is referenced under as a dependency is the name its statement is written under
+# ----------------------------------------------------------------------------
+_Cls = T.Tuple[Module, ast.ClassDef]
+
+
+def _may_be(repo: T.Any, k: _Cls, elems: T.List[_Cls], excluded: T.List[_Cls]) -> bool:
+    """Can a member of a collection declared to hold `elems` (minus instances of `excluded`) be a K?"""
+    mk = [x[1] for x in repo.mro(k[0], k[1])]
+    if any(x[1] in mk for x in excluded):
+        return False
+    return any(e[1] in mk or k[1] in [x[1] for x in repo.mro(e[0], e[1])] for e in elems)
+
+
+def _generic_dep_namers(repo: T.Any, mod: Module) -> T.List[T.Tuple[Module, str, ast.AST, int, ast.Call, str, str, str]]:
+    """Methods of the backend that name every member i of a collection parameter by join(self.<dir>(i), o) for o in i.<outputs>():
+    (module, qualified name, function, index of the collection parameter, join call, member variable, dir method, outputs method)."""
+    out = []
+    for gm, gc in repo.mro(mod, mod.cls(BACKEND)):
+        for g in gc.body:
+            if not isinstance(g, (ast.FunctionDef, ast.AsyncFunctionDef)):
+                continue
+            ps = _param_names(g)
+            for lp in walk_no_nested(g, include_root=False):
+                if not (isinstance(lp, ast.For) and isinstance(lp.iter, ast.Name) and lp.iter.id in ps and isinstance(lp.target, ast.Name)):
+                    continue
+                i = lp.target.id
+                for inner in ast.walk(lp):
+                    if not (isinstance(inner, ast.For) and inner is not lp and isinstance(inner.target, ast.Name) and isinstance(inner.iter, ast.Call)
+                            and isinstance(inner.iter.func, ast.Attribute) and isinstance(inner.iter.func.value, ast.Name) and inner.iter.func.value.id == i
+                            and not inner.iter.args and not inner.iter.keywords):
+                        continue
+                    for c in ast.walk(inner):
+                        if isinstance(c, ast.Call) and call_name(c) == 'os.path.join' and len(c.args) == 2 and isinstance(c.args[1], ast.Name) \
+                                and c.args[1].id == inner.target.id and isinstance(c.args[0], ast.Call) and (call_name(c.args[0]) or '').startswith('self.') \
+                                and (call_name(c.args[0]) or '').count('.') == 1 and len(c.args[0].args) == 1 and isinstance(c.args[0].args[0], ast.Name) and c.args[0].args[0].id == i:
+                            out.append((gm, f'{gc.name}.{g.name}', g, ps.index(lp.iter.id), c, i, call_name(c.args[0])[5:], inner.iter.func.attr))  # type: ignore[index]
+    return out
+
+
+def _generic_name_fields(repo: T.Any, mod: Module, k: _Cls, dir_meth: str, out_meth: str) -> T.Set[str]:
+    """Every attribute name the generic dependency name of a K may read: the bodies of K.<out_meth>, of the backend's <dir_meth> and, transitively,
+    of the backend methods these call on self and of the K methods they call on another receiver (an over-approximation: all attribute loads)."""
+    seen: T.Set[T.Tuple[str, str]] = set()
+    fields: T.Set[str] = set()
+    work = [('b', dir_meth, 0), ('k', out_meth, 0)]
+    while work:
+        side, m, d = work.pop()
+        if (side, m) in seen:
+            continue
+        seen.add((side, m))
+        fm = repo.find_method(mod, mod.cls(BACKEND), m) if side == 'b' else repo.find_method(k[0], k[1], m)
+        if fm is None:
+            continue
+        if d > 6:
+            raise Undecided(f'the generic dependency name of a {k[1].name} is computed through more than 6 nested methods ({m})')
+        fields |= {x.attr for x in ast.walk(fm[2]) if isinstance(x, ast.Attribute) and isinstance(x.ctx, ast.Load)}
+        for c in _own_calls(fm[2]):
+            if isinstance(c.func, ast.Attribute):
+                on_self = isinstance(c.func.value, ast.Name) and c.func.value.id == 'self'
+                work.append(('b' if side == 'b' and on_self else 'k', c.func.attr, d + 1))
+    return fields
+
+
+def _member_classes(ctx: RuleCtx, mod: Module, info: L.FnInfo, x: ast.AST, at: Node, depth: int = 0) -> T.Optional[T.Tuple[T.List[_Cls], T.List[_Cls]]]:
+    """(declared member classes, classes filtered out) of a collection expression, from annotations: `v.m()` (return annotation of m in the annotated class of
+    parameter v), `v.f` (annotation of the field), a parameter, a local with one reaching assignment, a comprehension `[d for d in SRC if [not] isinstance(d, C)]`."""
+    repo = ctx.repo
+    if depth > 4:
+        return None
+
+    def recv(e: ast.AST) -> T.List[_Cls]:
+        if not (isinstance(e, ast.Name) and e.id in info.params and not info.defs().get(e.id)):
+            return []
+        a = info.fn.args
+        ann = next((p.annotation for p in a.posonlyargs + a.args + a.kwonlyargs if p.arg == e.id), None)
+        got: T.List[_Cls] = []
+        _expand_ann(repo, mod, ann, got)
+        return got
+    if isinstance(x, ast.Call) and isinstance(x.func, ast.Attribute) and not x.args and not x.keywords:
+        elems: T.List[_Cls] = []
+        rc = recv(x.func.value)
+        for c in rc:
+            fm = repo.find_method(c[0], c[1], x.func.attr)
+            if fm is None or fm[2].returns is None:
+                return None
+            _expand_ann(repo, fm[0], fm[2].returns, elems)
+        return (elems, []) if rc and elems else None
+    if isinstance(x, ast.Attribute):
+        elems = []
+        rc = recv(x.value)
+        for c in rc:
+            ann = next((a for a in (_field_annotation(m2, c2, x.attr) for m2, c2 in repo.mro(c[0], c[1])) if a is not None), None)
+            m_ = next((m2 for m2, c2 in repo.mro(c[0], c[1]) if _field_annotation(m2, c2, x.attr) is not None), None)
+            if ann is None or m_ is None:
+                return None
+            _expand_ann(repo, m_, ann, elems)
+        return (elems, []) if rc and elems else None
+    if isinstance(x, ast.ListComp) and len(x.generators) == 1 and isinstance(x.generators[0].target, ast.Name) and isinstance(x.elt, ast.Name) \
+            and x.elt.id == x.generators[0].target.id:
+        g = x.generators[0]
+        base = _member_classes(ctx, mod, info, g.iter, at, depth + 1)
+        if base is None:
+            return None
+        elems, excl = list(base[0]), list(base[1])
+        for cond in g.ifs:
+            for atom, truth in _edge_facts(cond, True):
+                it = _isinstance_test(atom)
+                if it is None or it[0] != g.target.id:
+                    continue
+                cl = [repo.resolve_class(mod, nm) for nm in it[1]]
+                if any(c is None for c in cl):
+                    continue
+                if it[2] == truth:
+                    elems = T.cast(T.List[_Cls], cl)
+                else:
+                    excl += T.cast(T.List[_Cls], cl)
+        return elems, excl
+    if isinstance(x, ast.Name):
+        if x.id in info.params and not info.defs().get(x.id):
+            got = recv(x)
+            return (got, []) if got else None
+        rs = info.reaching(x.id, at)
+        if len(rs) == 1 and isinstance(rs[0], L.Def) and rs[0].kind == 'assign' and rs[0].value is not None:
+            return _member_classes(ctx, mod, info, rs[0].value, rs[0].node, depth + 1)
+    return None
+
+
+def r15(ctx: RuleCtx) -> None:
+    repo = ctx.repo
+    mod = repo.module(NB)
+    infos = _infos(ctx)
+    funcs = _backend_funcs(mod)
+    prod = _name_producers(ctx)
+    # special namings: the statement of a K is written under self.F(K), and F computes the name from fields of the target alone
+    special: T.List[T.Tuple[str, str, _Cls, T.Set[str]]] = []
+    for fname, ps_ in sorted(prod.items()):
+        fm = repo.find_method(mod, mod.cls(BACKEND), fname)
+        if fm is None:
+            continue
+        finfo = L.FnInfo(fm[0], f'{fm[1].name}.{fname}', fm[2])
+        fps = _param_names(fm[2])
+        if len(fps) != 1:
+            continue
+        tr = L.Tracer(finfo)
+        org: T.Set[str] = set()
+        for st in walk_no_nested(fm[2], include_root=False):
+            if isinstance(st, ast.Return) and st.value is not None:
+                org |= tr.origins(st.value, finfo.node_of(st))
+        if any(o.startswith('call:') for o in org):
+            ctx.note(f'{fname}(): the name is computed through other calls ({", ".join(sorted(o[5:] for o in org if o.startswith("call:"))[:3])}): not a name formed from fields of the target alone, not compared')
+            continue
+        pf = {o.split('.')[1] for o in org if o.startswith(f'attr:{fps[0]}.')}
+        a = fm[2].args
+        ann = next((p.annotation for p in a.posonlyargs + a.args + a.kwonlyargs if p.arg == fps[0]), None)
+        ks: T.List[_Cls] = []
+        _expand_ann(repo, fm[0], ann, ks)
+        if not pf or not ks:
+            ctx.note(f'{fname}(): no annotated target class / no field of the target flows into the name: not compared')
+            continue
+        for k in ks:
+            special.append((fname, ps_[0][0].split('.')[-1], k, pf))
+    if not special:
+        raise Undecided('no statement of the backend is written under a name that a naming method forms from fields of its target alone')
+    ctx.floor('target classes whose statement is written under a name formed from fields of the target', len(special), 1)
+    namers = _generic_dep_namers(repo, mod)
+    if not namers:
+        raise Undecided('no backend method names the members of a collection by join(self.<dir>(member), <output of member>)')
+    nsites = 0
+    for fname, pmeth, k, pf in special:
+        for gm, gq, g, cidx, join, ivar, dmeth, ometh in namers:
+            gname = gq.split('.')[-1]
+            extra = pf - _generic_name_fields(repo, mod, k, dmeth, ometh)
+            if not extra:
+                ctx.note(f'{fname}() / {gname}(): every field of a {k[1].name} the producer-side name reads may also be read by the generic dependency name: agreement is value-level, not compared')
+                continue
+            ginfo = L.FnInfo(gm, gq, g)
+            ns = ginfo.nodes_of(join)
+            cons = _class_constraints(ctx, gm, ginfo, ns[0], ivar) if ns else []
+            mk = [x[1] for x in repo.mro(k[0], k[1])]
+            if not all(any(c_[1] in mk for c_ in cl) == want for cl, want in cons):
+                nsites += 1
+                ctx.ok(f'{gq}: the generic name join({dmeth}(x), x.{ometh}()) is not formed for a {k[1].name} (isinstance arm before it)')
+                continue
+            gparams = _param_names(g)
+            for q, f in funcs.items():
+                for c in _own_calls(f):
+                    if call_name(c) != f'self.{gname}':
+                        continue
+                    b = L.bind_call(c, g, True) or {}
+                    x = b.get(gparams[cidx])
+                    if x is None or '*' in b or '**' in b:
+                        ctx.note(f'{q}: `{short(c, 60)}`: the collection argument is not a plain argument, not compared')
+                        continue
+                    info = infos.get(q)
+                    cn = info.nodes_of(c)
+                    mc = _member_classes(ctx, mod, info, x, cn[0]) if cn else None
+                    if mc is None:
+                        ctx.note(f'{q}: `{short(c, 60)}`: the declared member classes of `{short(x, 30)}` are not readable (annotation of a parameter / field / getter), not compared')
+                        continue
+                    nsites += 1
+                    ren = {p_: f'ARG{n_ + 1}' for n_, p_ in enumerate(_param_names(f))}
+                    xi = copy.deepcopy(L.inline_locals(info, x, cn[0]))
+                    for nd in ast.walk(xi):
+                        if isinstance(nd, ast.Name) and nd.id in ren:
+                            nd.id = ren[nd.id]
+                    ctx.require(not _may_be(repo, k, mc[0], mc[1]),
+                                f'{q}: no {k[1].name} among the members `{short(x, 40)}` hands to {gname}()', mod, q,
+                                f'{gname}(.., {norm(xi)}) names a {k[1].name} without {fname}()',
+                                f'`{short(c, 70)}`: the collection is declared to hold {"/".join(sorted(e[1].name for e in mc[0]))}, so a member may be a {k[1].name}; {gname}() references it as '
+                                f'join(self.{dmeth}(x), x.{ometh}()), but the only statement that produces a {k[1].name} ({pmeth}) is written under self.{fname}(x), which also reads '
+                                f'x.{"/x.".join(sorted(extra))} - a field the generic name never reads: for a target where that field matters the manifest names an input that no statement '
+                                f'produces and that is no file (filter the members with isinstance and name them through {fname}(), or add an arm to {gname}())', c)
+    if nsites == 0:
+        raise Undecided('no call site of a generic dependency namer with readable member classes was found')
+    ctx.floor('call sites of a generic dependency namer compared with the producer-side names', nsites, 3)
+
+
 RULES = [
     Rule('C04.R1', 'every build statement created is registered (add_build) on every normal path', r1),
     Rule('C04.R2a', 'one output registry: constructions pass self.all_outputs; only check_outputs mutates it', r2a),
@@ -3732,4 +3961,5 @@ RULES = [
     Rule('C04.R12', 'a produced per-target file name is handed out only for classes whose producer is called', r12),
     Rule('C04.R13', 'a per-target file name produced under a predicate on the target is used for members of a collection only under that predicate', r13),
     Rule('C04.R14', 'a raw command-line path becomes an implicit link dependency only under an existence test', r14),
+    Rule('C04.R15', 'a target class whose statement is written under a name formed from its fields is not referenced by the generic dependency name', r15),
 ]
